@@ -5,7 +5,12 @@ import (
 	"github.com/dpb587/rdfkit-go/encoding/turtle/internal"
 )
 
-func format_PN_LOCAL(v string) string {
+// format_PN_LOCAL writes v as a PN_LOCAL, escaping where the grammar requires it. The second result
+// is false when v contains a character which cannot be written in a PN_LOCAL without changing the
+// IRI (it is neither allowed raw at its position nor one of the PN_LOCAL_ESC characters); callers
+// must then fall back to another syntax for the IRI. Characters which are not allowed in an IRI at
+// all (controls, space, <>"{}|^`\) are percent-encoded.
+func format_PN_LOCAL(v string) (string, bool) {
 	var usePercent, escapeEsc int
 
 	tr := []rune(v)
@@ -16,11 +21,13 @@ func format_PN_LOCAL(v string) string {
 			usePercent++
 		case prefixLocalNameRuneEscapeESC:
 			escapeEsc++
+		case prefixLocalNameRuneUnrepresentable:
+			return "", false
 		}
 	}
 
 	if usePercent == 0 && escapeEsc == 0 {
-		return v
+		return v, true
 	}
 
 	buf := make([]rune, len(tr)+usePercent*2+escapeEsc)
@@ -45,7 +52,7 @@ func format_PN_LOCAL(v string) string {
 		}
 	}
 
-	return string(buf)
+	return string(buf), true
 }
 
 type prefixLocalNameRuneEscapeMode uint
@@ -54,8 +61,10 @@ const (
 	prefixLocalNameRuneEscapeNone prefixLocalNameRuneEscapeMode = iota
 	prefixLocalNameRuneEscapePERCENT
 	prefixLocalNameRuneEscapeESC
+	prefixLocalNameRuneUnrepresentable
 )
 
+// PN_LOCAL ::= (PN_CHARS_U | ':' | [0-9] | PLX) ((PN_CHARS | '.' | ':' | PLX)* (PN_CHARS | ':' | PLX))?
 func prefixLocalNameMustEscapeRune(r rune, pos int, length int) prefixLocalNameRuneEscapeMode {
 	if r == '.' {
 		if pos == 0 || pos == length-1 {
@@ -65,16 +74,27 @@ func prefixLocalNameMustEscapeRune(r rune, pos int, length int) prefixLocalNameR
 		return prefixLocalNameRuneEscapeNone
 	}
 
-	if internal.IsRune_PN_CHARS(r) {
+	if pos == 0 {
+		if internal.IsRune_PN_CHARS_U(r) || ('0' <= r && r <= '9') {
+			return prefixLocalNameRuneEscapeNone
+		}
+	} else if internal.IsRune_PN_CHARS(r) {
 		return prefixLocalNameRuneEscapeNone
-	} else if r == ':' {
+	}
+
+	if r == ':' {
 		return prefixLocalNameRuneEscapeNone
 	}
 
 	switch r {
-	case '~', '!', '$', '&', '\'', '(', ')', '*', '+', ',', ';', '=', '/', '?', '#', '@', '%':
+	case '-', '~', '!', '$', '&', '\'', '(', ')', '*', '+', ',', ';', '=', '/', '?', '#', '@', '%':
 		return prefixLocalNameRuneEscapeESC
 	}
 
-	return prefixLocalNameRuneEscapePERCENT
+	if iriMustEscapeRune(r, false) != iriRuneEscapeNone {
+		// not an IRI character; single byte, so its percent-encoding is %XX
+		return prefixLocalNameRuneEscapePERCENT
+	}
+
+	return prefixLocalNameRuneUnrepresentable
 }
